@@ -5,7 +5,9 @@ prop("C06", pkg="c06",
           "pointer-shaped matrix) x 4 APIs x by value/pointer x 4 flag sets (enumerated); rapid-generated types incl. unsupported kinds and map key types with "
           "generated values; type-directed / mutated / truncated / generic / random documents into generated target types (zero or pre-populated, also non-pointer, "
           "nil and typed-nil targets); every prefix of generated documents; nesting bombs of 10^3..2*10^6 (5*10^6 thorough) levels in 6 shapes through every decode "
-          "entry point and 8 target types. Oracle: the call returns (recover with SetPanicOnFault; process death or a 120 s watchdog = violation with the journalled "
+          "entry point and 8 target types; targets whose interfaces form cycles or hold typed nil pointers (fields, any, slice elements within and beyond the "
+          "length, map values, array elements); after every decode into a generated target the target - complete or partial - is encoded (reads every pointer "
+          "the decoder stored). Oracle: the call returns (recover with SetPanicOnFault; process death or a 120 s watchdog = violation with the journalled "
           "case as replay). Non-trivial = hostile value, composite generated type, or mutated/truncated document of >= 8 bytes into a composite target.",
      quick=dict(shards=16, scale=1, timeout=1200),
      thorough=dict(shards=16, rounds=4, scale=1.5, timeout=3400),
